@@ -63,17 +63,18 @@ Proof.
 Qed.
 
 (* ---------------------------------------------------------------------------------------- *)
-(* the simulation relation *)
+(* the simulation relation: the proxy knows exactly what the summary says was RECORDED (hence, by
+   recorded_sub_known, only what was DECLARED) *)
 Record rel (p : proxy) (s : wspec) : Prop := {
   r_inv : pinv p;
-  r_known : forall m, known_p p m = known s m;
+  r_known : forall m, known_p p m = recorded s m;
   r_hbc : p_hb p = s_hbmax s;
   r_lastbase : s_lastbase s <= p_base p;
   r_count : forall l, s_lastcount s = Some l -> l < p_an p }.
 
 Definition Inv (st : rstate) (S : sstate) : Prop :=
   (forall w, match r_prox st w, S w with
-             | Some p, Some s => rel p s
+             | Some p, Some s => rel p s /\ s_base s = p_base p
              | None, None => True
              | _, _ => False
              end)
@@ -87,8 +88,9 @@ Lemma Inv_init matched : Inv (init matched) (sinit matched).
 Proof.
   split; [|split].
   - intros w. unfold init, sinit. cbn [r_prox]. destruct (memz w matched); [|exact I].
+    split; [|reflexivity].
     constructor; [apply pinv_new| |reflexivity|cbn; lia|intros l H; discriminate].
-    intros m. unfold known_p, should_ignore_change, known. cbn. now destruct (m <? 1).
+    intros m. unfold known_p, should_ignore_change, recorded, known. cbn. now destruct (m <? 1).
   - intros w fa H. discriminate.
   - intros w s sn _ H. unfold is_partial, init in H. cbn in H. discriminate.
 Qed.
@@ -100,17 +102,21 @@ Proof. unfold upd. now rewrite Z.eqb_refl. Qed.
 Lemma upd_other {A} (f : Z -> option A) w v k : k <> w -> upd f w v k = f k.
 Proof. unfold upd. intros H. destruct (Z.eqb_spec k w); [congruence|reflexivity]. Qed.
 
-(* updating the proxy and the summary of one matched writer *)
+Lemma rel_set_sbase p s b : rel p s -> rel p (set_sbase s b).
+Proof. intros [A B C D E]. constructor; assumption. Qed.
+
+(* updating the proxy and the summary of one matched writer; the summary takes the new ack base *)
 Lemma Inv_set st S w p s :
   Inv st S -> rel p s -> (forall sn, is_partial st w sn = true -> memz sn (s_frag s) = true) ->
-  Inv (set_prox st w p) (supd S w s).
+  Inv (set_prox st w p) (supd S w (set_sbase s (p_base p))).
 Proof.
   intros (I1 & I2 & I3) Hr Hf. split; [|split].
-  - intros k. unfold set_prox, supd. cbn [r_prox]. unfold upd. destruct (k =? w); [exact Hr|apply I1].
+  - intros k. unfold set_prox, supd. cbn [r_prox]. unfold upd. destruct (k =? w); [|apply I1].
+    split; [now apply rel_set_sbase|reflexivity].
   - exact I2.
   - intros k s' sn. unfold supd. unfold is_partial, set_prox. cbn [r_asm].
     destruct (Z.eqb_spec k w) as [->|N]; intros E.
-    + inversion E; subst. apply Hf.
+    + inversion E; subst. cbn [set_sbase s_frag]. apply Hf.
     + apply (I3 k s' sn E).
 Qed.
 
@@ -120,12 +126,18 @@ Definition same_view (s s' : wspec) : Prop :=
   /\ s_adv s' = s_adv s /\ s_lastbase s' = s_lastbase s /\ s_frag s' = s_frag s.
 Lemma same_view_known s s' m : same_view s s' -> known s' m = known s m.
 Proof. intros (A & B & C & _). unfold known. now rewrite A, B, C. Qed.
+Lemma same_view_recview s s' : same_view s s' -> same_view (rec_view s) (rec_view s').
+Proof. intros (A & B & C & D & E & G & H). unfold same_view, rec_view. cbn. now rewrite A, B, C, D, E, G, H. Qed.
+Lemma same_view_rec s s' m : same_view s s' -> recorded s' m = recorded s m.
+Proof. intros H. unfold recorded. apply same_view_known, same_view_recview, H. Qed.
 Lemma same_view_lu s s' x : same_view s s' -> lowest_unknown s' x = lowest_unknown s x.
 Proof.
   intros H. unfold lowest_unknown.
   assert (Ec : cands s' = cands s). { destruct H as (A & B & C & _). unfold cands. now rewrite A, B, C. }
   rewrite Ec. erewrite filter_ext; [reflexivity|]. intros c. cbn. now rewrite (same_view_known s s' c H).
 Qed.
+Lemma same_view_lur s s' x : same_view s s' -> lowest_unrecorded s' x = lowest_unrecorded s x.
+Proof. intros H. unfold lowest_unrecorded. apply same_view_lu, same_view_recview, H. Qed.
 
 (* ---------------------------------------------------------------------------------------- *)
 (* NACKFRAGs *)
@@ -139,7 +151,7 @@ Qed.
 
 Lemma nackfrags_ok st w partial : forall cnt s,
   (forall sn, In sn partial ->
-      known s sn = false /\ memz sn (s_frag s) = true
+      recorded s sn = false /\ memz sn (s_frag s) = true
       /\ exists first last, s_adv s = Some (first, last) /\ first <= sn <= last) ->
   (forall l, s_lastcount s = Some l -> l < cnt) ->
   exists s', replies_ok w s (fst (nackfrags st w partial cnt)) = Some s'
@@ -168,7 +180,7 @@ Proof.
       destruct (Hp sn (or_introl eq_refl)) as (K & Fr & first & last & Adv & Rng).
       set (s1 := {| s_lo := s_lo s; s_rng := s_rng s; s_pts := s_pts s; s_hbmax := s_hbmax s;
                     s_adv := s_adv s; s_lastbase := s_lastbase s; s_lastcount := Some cnt;
-                    s_frag := s_frag s |}).
+                    s_frag := s_frag s; s_base := s_base s |}).
       assert (Hv1 : same_view s s1) by (repeat split).
       destruct (IH (cnt + 1) s1) as (s' & A & B & C & D).
       { intros x Hx. destruct (Hp x (or_intror Hx)) as (K' & Fr' & R'). repeat split; assumption. }
@@ -259,7 +271,7 @@ Section Heartbeat.
 
   Lemma hb_s1 : s1 = {| s_lo := Z.max (s_lo s) first; s_rng := s_rng s; s_pts := s_pts s; s_hbmax := count;
            s_adv := Some (first, last); s_lastbase := s_lastbase s; s_lastcount := s_lastcount s;
-           s_frag := s_frag s |}.
+           s_frag := s_frag s; s_base := s_base s |}.
   Proof.
     subst s1 o. cbn [spec_input]. rewrite Hacc. cbn [andb].
     destruct Hrel. replace (s_hbmax s <? count) with true by (symmetry; apply Z.ltb_lt; lia). reflexivity.
@@ -273,15 +285,17 @@ Section Heartbeat.
   Lemma hb_p2_inv : pinv p2.
   Proof. subst p2. apply icr_pinv, set_hb_pinv, Hrel. Qed.
 
-  Lemma hb_p2_known m : known_p p2 m = known s1 m.
+  Lemma hb_p2_known m : known_p p2 m = recorded s1 m.
   Proof.
     subst p2. unfold irrelevant_changes_up_to. rewrite icr_known, set_hb_known, hb_s1.
-    destruct Hrel as [[Hb1 _] Hk _ _ _]. rewrite Hk. unfold known. cbn [s_lo s_rng s_pts]. unfold in_range.
-    assert (Hneg : m < 0 -> known s m = true).
+    destruct Hrel as [[Hb1 _] Hk _ _ _]. rewrite Hk.
+    unfold icr_until. cbn [p_base set_hb]. destruct (Z.leb_spec 0 (p_base p)); [|lia].
+    unfold recorded, known, rec_view. cbn [s_lo s_rng s_pts]. unfold in_range.
+    assert (Hneg : m < 0 -> recorded s m = true).
     { intros Hm. rewrite <- Hk. unfold known_p, should_ignore_change.
       destruct (Z.ltb_spec m (p_base p)); [reflexivity|lia]. }
-    unfold known in Hneg.
-    destruct (existsb (in_rng m) (s_rng s)), (memz m (s_pts s));
+    unfold recorded, known, rec_view in Hneg. cbn [s_lo s_rng s_pts] in Hneg.
+    destruct (existsb (in_rng m) (map rec_rng (s_rng s))), (memz m (s_pts s));
       rewrite ?orb_true_r; try reflexivity.
     rewrite !orb_false_r in *.
     destruct (Z.ltb_spec m (s_lo s)), (Z.leb_spec 0 m), (Z.ltb_spec m first), (Z.ltb_spec m (Z.max (s_lo s) first));
@@ -291,19 +305,29 @@ Section Heartbeat.
   Lemma hb_first_le : first <= p_base p2 /\ 1 <= p_base p2.
   Proof. split; [subst p2; apply up_to_first, set_hb_pinv, Hrel|apply hb_p2_inv]. Qed.
 
-  Lemma hb_base_unknown : known s1 (p_base p2) = false.
+  Lemma hb_base_unknown : recorded s1 (p_base p2) = false.
   Proof.
     rewrite <- hb_p2_known. destruct hb_p2_inv as [_ B]. unfold known_p, should_ignore_change. rewrite B.
     destruct (Z.ltb_spec (p_base p2) (p_base p2)); [lia|reflexivity].
   Qed.
-  Lemma hb_below_known m : m < p_base p2 -> known s1 m = true.
+  Lemma hb_below_known m : m < p_base p2 -> recorded s1 m = true.
   Proof.
     intros H. rewrite <- hb_p2_known. unfold known_p, should_ignore_change.
     destruct (Z.ltb_spec m (p_base p2)); [reflexivity|lia].
   Qed.
-  Lemma hb_lu x : x <= p_base p2 -> lowest_unknown s1 x = Some (p_base p2).
+  (* the lowest number that is not recorded is the ack base ... *)
+  Lemma hb_lu x : x <= p_base p2 -> lowest_unrecorded s1 x = Some (p_base p2).
   Proof.
-    intros H. apply lowest_unknown_char; [exact H|apply hb_base_unknown|]. intros m Hm. apply hb_below_known. lia.
+    intros H. unfold lowest_unrecorded. apply lowest_unknown_char; [exact H|apply hb_base_unknown|].
+    intros m Hm. apply hb_below_known. lia.
+  Qed.
+  (* ... and the lowest number that was not declared is at or above it *)
+  Lemma hb_truth : exists lu, lowest_unknown s1 1 = Some lu /\ p_base p2 <= lu.
+  Proof.
+    destruct (lowest_unknown_some s1 1) as (lu & E). exists lu. split; [exact E|].
+    apply lowest_unknown_sound in E as (_ & K & _).
+    destruct (Z.lt_ge_cases lu (p_base p2)) as [H|H]; [|lia].
+    apply hb_below_known, recorded_sub_known in H. congruence.
   Qed.
 
   Lemma hb_p2_fields : p_hb p2 = count /\ p_an p2 = p_an p /\ p_base p <= p_base p2.
@@ -316,7 +340,7 @@ Section Heartbeat.
   Let missing := missing_seqnums p2 first last_chk.
 
   Lemma hb_missing_props x : In x missing ->
-    first <= x <= last /\ p_base p2 <= x /\ known s1 x = false.
+    first <= x <= last /\ p_base p2 <= x /\ recorded s1 x = false.
   Proof.
     intros H. pose proof (missing_unknown _ _ _ _ H) as U. apply missing_in in H as (A & B & _).
     subst last_chk. rewrite <- hb_p2_known. repeat split; try lia; exact U.
@@ -344,7 +368,7 @@ Section Heartbeat.
     intros _ E1 E2 E3 E4 Hlb Hc. constructor.
     - exact hb_p2_inv.
     - intros m. change (known_p (set_an p2 c) m) with (known_p p2 m). rewrite hb_p2_known.
-      unfold known. now rewrite E1, E2, E3.
+      unfold recorded, known, rec_view. cbn [s_lo s_rng s_pts]. now rewrite E1, E2, E3.
     - cbn [p_hb set_an]. rewrite E4, hb_s1. cbn. apply hb_p2_fields.
     - exact Hlb.
     - exact Hc.
@@ -404,15 +428,16 @@ Section Heartbeat.
             apply filter_In in Hx1 as [Hx1 _]. apply hb_window_sub in Hx1. now rewrite E.
           + intros Hnp _. apply Hm2; [|lia]. apply filter_In. split; [apply hb_window_head|now rewrite Hnp]. }
       destruct Hset as (-> & Hn & Hmi & Hm1 & Hm2).
-      rewrite (same_view_lu s1 s' 1 B), (hb_lu 1 Hb1). rewrite Z.leb_refl. cbn [andb].
+      rewrite (same_view_lu s1 s' 1 B). destruct hb_truth as (lu & Elu & Hlu). rewrite Elu.
+      replace (p_base p2 <=? lu) with true by (symmetry; apply Z.leb_le; lia). cbn [andb].
       assert (Elb : s_lastbase s' = s_lastbase s1) by apply B. rewrite Elb.
       replace (s_lastbase s1 <=? p_base p2) with true by (symmetry; apply Z.leb_le; lia).
       replace (0 <=? n) with true by (symmetry; apply Z.leb_le; lia).
       replace (n <=? 256) with true by (symmetry; apply Z.leb_le; lia).
       rewrite Hmi. cbn [andb].
-      replace (forallb (fun m0 => (m0 <? p_base p2 + n) && negb (known s' m0)) m) with true.
+      replace (forallb (fun m0 => (m0 <? p_base p2 + n) && negb (recorded s' m0)) m) with true.
       2:{ symmetry. apply forallb_forall. intros x Hx. destruct (Hm1 x Hx) as [Hx1 Hx2].
-          rewrite (same_view_known s1 s' x B). destruct (hb_missing_props x Hx1) as (_ & _ & K). rewrite K.
+          rewrite (same_view_rec s1 s' x B). destruct (hb_missing_props x Hx1) as (_ & _ & K). rewrite K.
           apply andb_true_iff. split; [apply Z.ltb_lt; lia|reflexivity]. }
       assert (Eadv : s_adv s' = Some (first, last)). { destruct B as (_ & _ & _ & _ & Ea & _). rewrite Ea, hb_s1. reflexivity. }
       rewrite Eadv.
@@ -437,7 +462,8 @@ Section Heartbeat.
             destruct HI as (_ & I2 & _). eapply missing_frags_nonempty; [apply (I2 w fa Ea)|exact El].
         - cbn [requested existsb]. rewrite (proj2 (memz_true _ _) (Hm2 eq_refl Hle)). now rewrite orb_true_r. }
       rewrite Hlr. cbn [negb andb].
-      eexists. split; [reflexivity|]. apply (Inv_set st S w _ _ HI).
+      eexists. split; [reflexivity|]. cbn [so_base op_writer set_prox r_prox]. rewrite upd_same.
+      apply (Inv_set st S w _ _ HI).
       + apply hb_rel_after; cbn [s_lo s_rng s_pts s_hbmax s_lastbase s_lastcount]; try apply B; try lia.
         * right. repeat split; apply B.
         * intros l Hl. inversion Hl. lia.
@@ -453,9 +479,44 @@ Section Heartbeat.
         destruct hb_missing_shape as [[_ Hl]|(l & E & _)]; [|subst missing; congruence].
         destruct (Z.leb_spec (p_base p2) last); [lia|reflexivity]. }
       rewrite Hlr. cbn [negb andb].
-      eexists. split; [reflexivity|]. apply (Inv_set st S w _ _ HI).
+      eexists. split; [reflexivity|]. cbn [so_base op_writer set_prox r_prox]. rewrite upd_same.
+      apply (Inv_set st S w _ _ HI).
       + replace p2 with (set_an p2 (p_an p2)) by (destruct p2; reflexivity).
         apply hb_rel_after; try reflexivity; try assumption. now left.
       + intros sn Hsn. now apply hb_partial_frag.
+  Qed.
+  (* the base of the ACKNACK is the proxy's ack base after the HEARTBEAT, and everything below it is
+     RECORDED (more than the property asks for: base_truthful only needs DECLARED) *)
+  Lemma hb_sns_base b n m : hb_sns st w p2 missing = (b, n, m) -> b = p_base p2.
+  Proof.
+    unfold hb_sns. destruct hb_first_le as [_ Hb1]. destruct hb_missing_shape as [[E _]|(l & E & Hl)]; rewrite E.
+    - intros H. now inversion H.
+    - assert (Hinc : incr_from (p_base p2) (filter (fun s0 => negb (is_partial st w s0)) (hb_window (p_base p2 :: l))) = true).
+      { apply incr_from_filter, hb_window_incr. rewrite <- E. apply missing_incr. }
+      destruct (fbs_spec _ _ Hb1 Hinc) as (n' & m' & E' & _). rewrite E'. intros H. now inversion H.
+  Qed.
+
+  Lemma nackfrags_no_acknack partial : forall cnt w' b n m c,
+    ~ In (AckNack w' b n m c) (fst (nackfrags st w partial cnt)).
+  Proof.
+    induction partial as [|sn rest IH]; intros cnt w' b n m c; cbn [nackfrags]; [intros []|].
+    destruct (missing_frags st w sn) as [|f0 fl]; [apply IH|].
+    destruct (from_base_and_set f0 (f0 :: fl)) as [[b0 n0] m0]. cbn [fst]. intros [H|H]; [discriminate|].
+    now apply IH in H.
+  Qed.
+
+  Lemma hb_ack_base w' b n m c :
+    In (OReply (AckNack w' b n m c)) (snd (handle_heartbeat true st w p first last count final)) ->
+    b = p_base p2 /\ forall x, x < b -> recorded s1 x = true.
+  Proof.
+    unfold handle_heartbeat. destruct (Z.leb_spec count (p_hb p)) as [|_]; [lia|].
+    fold p2. fold last_chk. fold missing.
+    destruct (negb (match missing with [] => true | _ => false end) || negb final).
+    - destruct (hb_sns st w p2 missing) as [[b0 n0] m0] eqn:Esns. cbn [snd].
+      intros [H|H]; [discriminate|]. apply in_app_or in H as [H|[H|[]]].
+      + apply in_map_iff in H as (r & Hr & Hin). inversion Hr; subst r. now apply nackfrags_no_acknack in Hin.
+      + injection H as _ Hb _ _ _. apply hb_sns_base in Esns. rewrite <- Hb, Esns. split; [reflexivity|].
+        intros x Hx. now apply hb_below_known.
+    - cbn [snd]. intros [H|[]]. discriminate.
   Qed.
 End Heartbeat.
